@@ -95,12 +95,13 @@ func genPackage(c *vh.Ctx, r *rand.Rand, n int, nmsgs int) []*descriptorpb.FileD
 		return true
 	}
 	pin := g.pinnedFile()
+	pined := g.pinnedEditionsFiles()
 	p2 := g.file("proto2", "p2", nmsgs, nil, accept)
 	done = append(done, p2)
 	p3 := g.file("proto3", "p3", nmsgs, []*descriptorpb.FileDescriptorProto{p2}, accept)
 	done = append(done, p3)
 	ed := g.file("editions", "ed", nmsgs, []*descriptorpb.FileDescriptorProto{p2, p3}, accept)
-	return []*descriptorpb.FileDescriptorProto{pin, p2, p3, ed}
+	return append([]*descriptorpb.FileDescriptorProto{pin, pined[0], pined[1]}, p2, p3, ed)
 }
 
 // report records one failure. Failures carrying a classifier signature are recorded once per signature and
@@ -563,7 +564,9 @@ func runC41(c *vh.Ctx) {
 		nm := 3 + r.Intn(4)
 		files := genPackage(c, r, b, nm)
 		tags := ""
-		if c.Thorough() && b%5 == 4 {
+		// the hybrid level built with -tags protoopaque (its second generated file): the second batch of the quick
+		// tier, every fifth batch of the thorough tier
+		if (c.Thorough() && b%5 == 4) || (!c.Thorough() && b == 1) {
 			tags = "protoopaque"
 		}
 		e.runBatch(c, b, files, pinnedCasesFor(files), c.Seed*31+int64(b), c.N(12, 25), tags)
